@@ -25,6 +25,7 @@ RULES = {
     "R17.4": "flat re-entry: a loop whose output is flattened re-enters a spatial layer through its Data::Single arm, which must "
              "re-chunk with the layer's own input height/width (R02.3 re-checked here)",
 }
+RULES["R17.3"] += " | index validation and duplicate guard are read off the path conditions of the insert into self.loopbacks"
 ASSUMPTIONS = ["the accumulated values are not decided"]
 TRUSTED = ["rustc nightly front end", "driver/src/main.rs", "sa/e1.py", "sa/e4.py", "sa/extract.py (for the primitives)"]
 
